@@ -259,7 +259,7 @@ func verifyFunc(p *Program, fn *ssa.Function, fc *FuncC, timeoutS int, filter0 f
 			rec = func(os []*Obl, whole bool) {
 				var r solveResult
 				if len(os) == 1 {
-					r = solveStaged(prefix+fmt.Sprintf("(assert %s)\n(assert (not %s))\n(check-sat)\n", os[0].okPre, os[0].obSym), timeoutS)
+					r = solveLeaf(prefix+fmt.Sprintf("(assert %s)\n(assert (not %s))\n(check-sat)\n", os[0].okPre, os[0].obSym), timeoutS)
 				} else if whole {
 					r = solveStaged(prefix+goalOf(os, whole)+"(check-sat)\n", timeoutS)
 				} else {
